@@ -149,6 +149,15 @@ theorem defer_arg_fixed_at_statement (n m : Int) (k : Nat) :
     (runY facts (k + 2) (.setRes n (.defer (.printArg .done) .res (.setRes m .done)))).out = [.arg n] := by
   constructor <;> rfl
 
+/-- `defer fmt.Println([]interface{}{"t", 1, 2}...)` (eef6ac5): the slice is the list of variadic arguments -/
+def progSpread : Code := .deferBinSpread "t" [1, 2] (.print "body" .done)
+
+/-- regression: the deferred call prints `t 1 2`; without deferCallSlice at the site the slice was one argument (`[t 1 2]`) -/
+example :
+    runY facts 2 progSpread = ⟨[.print "body", .bins "t" [1, 2] true], .ok, true⟩ ∧
+    Spec.run 2 progSpread = ⟨[.print "body", .bins "t" [1, 2] true], .ok, true⟩ ∧
+    (runY { facts with spreadBin := false } 2 progSpread).out = [.print "body", .bins "t" [1, 2] false] := by decide
+
 /-- F06-3 (fixed) through a re-panic: `defer func(){ if x := recover(); x != nil { panic(x) } }(); panic(143)` -/
 def progRepanic : Code := .defer (.repanic .done) (.lit 0) (.panic (.int 143) .done)
 
